@@ -356,7 +356,7 @@ func ruleC25(c *Ctx) {
 		for _, b := range tout.Blocks {
 			for _, in := range b.Instrs {
 				bo, ok := in.(*ssa.BinOp)
-				if !ok || bo.Op.String() != "+" || !isParam("blockHeight")(bo.X) {
+				if !ok || bo.Op.String() != "+" || !paramN(1)(bo.X) {
 					continue
 				}
 				k, isK := bo.Y.(*ssa.Const)
@@ -450,7 +450,7 @@ func ruleC26(c *Ctx) {
 	}
 	rs := c.Func("account", "(*utxoKeeper).Reserve")
 	if rs != nil {
-		c.RequireGuard("guard", c.ScopeFunc(rs), "insufficient / immature / reserved classes", isParam("amount"))
+		c.RequireGuard("guard", c.ScopeFunc(rs), "insufficient / immature / reserved classes", paramN(3))
 		for _, e := range []string{"ErrInsufficient", "ErrImmature", "ErrReserved"} {
 			c.RequireFailureWithFacts("facts", rs, e)
 		}
